@@ -63,6 +63,9 @@ func checkC16(c *Check) {
 	c.Rule("R1m", "every field-map literal with smtp_code and smtp_enchcode: same coherence", 1)
 	c16Literals(c)
 
+	c.Rule("R1f", "an SMTP error built from a literal and adjusted afterwards stays coherent: a store of a constant basic code into the error is accompanied, in the same statement list, by a store of the enhanced code (whole or class digit) into the SAME variable – unless the literal leaves the enhanced code unset", 2)
+	c16InPlace(c)
+
 	c.Rule("R2", "helpers: SMTPCode returns its temporary argument exactly on the IsTemporary edge; SMTPEnchCode yields class 4 on that edge and class 5 otherwise", 2)
 	c16Helpers(c)
 
@@ -1346,4 +1349,106 @@ func c16JudgeAtCallers(c *Check, pk *packages.Package, body *ast.BlockStmt, prm 
 		return false, "", false
 	}
 	return ok, msg, true
+}
+
+// c16InPlace: R1f. `x := &SMTPError{Code: 550, EnhancedCode: {5,7,1}}; if temporary { x.Code = 450; … }` – the class digit
+// has to move with the code, in the error itself (arrays are values in Go: `e := x.EnhancedCode; e[0] = 4` changes a copy).
+func c16InPlace(c *Check) {
+	p := c.P
+	n := 0
+	for _, pk := range p.ServerPkgs() {
+		info := pk.TypesInfo
+		eachFuncBody(pk, func(name string, fd *ast.FuncDecl, body *ast.BlockStmt) {
+			fnName := pk.Types.Name() + "." + strings.TrimPrefix(name, ".")
+			// locals built from an SMTPError literal, with the literal
+			lits := map[types.Object]*ast.CompositeLit{}
+			ast.Inspect(body, func(x ast.Node) bool {
+				as, ok := x.(*ast.AssignStmt)
+				if !ok || len(as.Lhs) != len(as.Rhs) {
+					return true
+				}
+				for i, r := range as.Rhs {
+					e := ast.Unparen(r)
+					if u, isU := e.(*ast.UnaryExpr); isU && u.Op == token.AND {
+						e = ast.Unparen(u.X)
+					}
+					if cl, isCL := e.(*ast.CompositeLit); isCL {
+						if tv, has := info.Types[cl]; has && isSMTPErrorType(tv.Type) {
+							if o := objOf(info, as.Lhs[i]); o != nil {
+								lits[o] = cl
+							}
+						}
+					}
+				}
+				return true
+			})
+			if len(lits) == 0 {
+				return
+			}
+			ord := 0
+			ast.Inspect(body, func(x ast.Node) bool {
+				var list []ast.Stmt
+				switch b := x.(type) {
+				case *ast.BlockStmt:
+					list = b.List
+				case *ast.CaseClause:
+					list = b.Body
+				default:
+					return true
+				}
+				for _, st := range list {
+					as, ok := st.(*ast.AssignStmt)
+					if !ok || len(as.Lhs) != len(as.Rhs) {
+						continue
+					}
+					for i, l := range as.Lhs {
+						sel, isSel := ast.Unparen(l).(*ast.SelectorExpr)
+						if !isSel || sel.Sel.Name != "Code" || fieldOf(info, sel) == nil {
+							continue
+						}
+						base := objOf(info, sel.X)
+						lit := lits[base]
+						tv, has := info.Types[as.Rhs[i]]
+						if base == nil || lit == nil || !has || tv.Value == nil {
+							continue // not a constant code, or not an error built here (converters: R3 / R3b)
+						}
+						ord++
+						n++
+						c.sites++
+						// the literal leaves the enhanced code unset?
+						unset := true
+						for _, el := range lit.Elts {
+							if kv, isKV := el.(*ast.KeyValueExpr); isKV {
+								if id, isID := kv.Key.(*ast.Ident); isID && id.Name == "EnhancedCode" {
+									ev := c16Evaluator(p, info)(kv.Value, nil)
+									unset = ev.K == absConst && ev.N == 0
+								}
+							}
+						}
+						paired := false
+						for _, st2 := range list {
+							as2, ok2 := st2.(*ast.AssignStmt)
+							if !ok2 {
+								continue
+							}
+							for _, l2 := range as2.Lhs {
+								e2 := ast.Unparen(l2)
+								if ix, isIx := e2.(*ast.IndexExpr); isIx {
+									e2 = ast.Unparen(ix.X)
+								}
+								if s2, isS2 := e2.(*ast.SelectorExpr); isS2 && s2.Sel.Name == "EnhancedCode" && objOf(info, s2.X) == base {
+									paired = true
+								}
+							}
+						}
+						c.Hold("R1f", fnName+":adjust"+itoa(ord), as.Pos(), unset || paired, "the basic code of "+base.Name()+" is changed to "+tv.Value.String()+" but the enhanced code of the same error is not (a change made to a copy of the EnhancedCode array does not reach it): the reply combines the new class with the old one – e.g. 450 with 5.7.1, a failure the sender is meant to retry marked permanent")
+					}
+				}
+				return true
+			})
+		})
+	}
+	if n == 0 {
+		c.Fail("R1f", "sites", token.NoPos, "undecided: no error built from a literal is adjusted in place")
+	}
 }
